@@ -274,12 +274,14 @@ impl Folder {
             r is Err ==> final(self).secrets() == old(self).secrets()
                 || final(self).secrets() == Self::after_create(old(self).secrets(), secret_data.id@, (secret_data.meta@, secret_data.secret@)),
     { unimplemented!() }
-    /// folder.rs:242; clientsync [read_is_last_written] (vaultmem [read_is_decrypt_of_stored])
+    /// folder.rs:242; clientsync [read_is_last_written] (vaultmem [read_is_decrypt_of_stored]).  Last clause: a DECODED
+    /// secret never names a source file — crates/vault/src/encoding/secret.rs:368 decodes `FileContent::External` with
+    /// `path: None` (the path is not part of the encoding); attachment fields are rows decoded the same way
     #[verifier::external_body]
     pub fn read_secret(&self, id: &SecretId) -> (r: BkResult<Option<(SecretMeta, Secret, ReadEvent)>>)
         ensures
             r is Ok ==> (r->Ok_0 is Some <==> self.secrets().contains_key(id@))
-                && (r->Ok_0 matches Some(t) ==> self.secrets()[id@] == (t.0@, t.1@) && t.2 == ReadEvent::ReadSecret(*id)),
+                && (r->Ok_0 matches Some(t) ==> self.secrets()[id@] == (t.0@, t.1@) && t.2 == ReadEvent::ReadSecret(*id) && !has_file_sources(t.1@)),
     { unimplemented!() }
     /// folder.rs:251; clientsync [raw_is_lookup]
     #[verifier::external_body]
@@ -370,6 +372,9 @@ impl Clone for FileProgressSender {
     #[verifier::external_body]
     fn clone(&self) -> (r: FileProgressSender) { unimplemented!() }
 }
+/// the secret names a NEW file to encrypt (`FileContent::External { path: Some(..), .. }`, itself or in an attachment field):
+/// what file_manager.rs `get_file_sources` collects
+pub uninterp spec fn has_file_sources(s: SecretV) -> bool;
 /// the secret `write_update_checksum` hands back for rewriting (file_manager.rs:518-539): the
 /// same secret with checksum / size of the encrypted external files filled in (`copy_file_secret`)
 pub uninterp spec fn checksum_update(before: SecretV, after: SecretV) -> bool;
@@ -382,13 +387,16 @@ impl ExternalFileManager {
     pub uninterp spec fn logged(&self) -> Seq<FileMutationEvent>;
     /// file_manager.rs:149 -> `write_update_checksum` (:410): `id = *secret_data.id()` (:421),
     /// `new_meta = secret_data.meta().clone()` (:514), `Some((id, SecretRow::new(id, new_meta,
-    /// new_secret)))` (:542): the row to write back has the same id and the same meta data
+    /// new_secret)))` (:542): the row to write back has the same id and the same meta data.  Without file sources
+    /// (`files` empty: no `results`, no `attachments`, `new_user_data` None) the secret handed back is
+    /// `copy_file_secret(secret, None, None, None)` (:685: every field cloned) or the secret itself
     #[verifier::external_body]
     pub fn create_files(&mut self, summary: &Summary, secret_data: SecretRow, file_progress: &mut Option<FileProgressSender>)
         -> (r: ClResult<(Vec<FileMutationEvent>, Option<(SecretId, SecretRow)>)>)
         ensures final(self).logged() == old(self).logged(),
             r matches Ok((_, Some((wid, wrow)))) ==> wid@ == secret_data.id@ && wrow.id@ == secret_data.id@ && wrow.meta@ == secret_data.meta@
-            && checksum_update(secret_data.secret@, wrow.secret@),
+            && checksum_update(secret_data.secret@, wrow.secret@)
+            && (!has_file_sources(secret_data.secret@) ==> wrow.secret@ == secret_data.secret@),
     { unimplemented!() }
     /// file_manager.rs:160 `update_files`: the write-back row comes from `write_update_checksum(new_summary, new_secret, ..)`
     #[verifier::external_body]
